@@ -20,6 +20,8 @@ import (
 	"context"
 	"fmt"
 	"net"
+
+	"github.com/arloliu/go-secs/v2/internal/vhook"
 )
 
 // startPassive listens on the configured host:port and spawns the accept goroutine, then returns
@@ -100,6 +102,8 @@ func (t *transport) acceptLoop(g *genWG, ln net.Listener) {
 	}
 
 	t.applyKeepAlive(conn)
+
+	vhook.At("hsmsss.accept.adopted")
 
 	// Publish the socket before rt.TCPUp / spawning the recv loop. The g.recv.Add(1) below is
 	// issued BEFORE this goroutine can return (the refuse loop keeps it alive until Stop closes
